@@ -449,6 +449,69 @@ def check_representing(ctx):
     ctx.check(ok, R6, f.key + ":result", "the corrected shot list is what is returned", "the corrected list of shots is not what is wrapped and returned", f)
 
 
+_ORDER_CHANGING = {"sorted", "reversed", "set", "frozenset", "shuffle", "permutation", "sort", "flip", "unique"}
+
+
+def _order_trace(fn: ast.AST, d: Defs, e: ast.AST, depth: int = 0):
+    """(source expression text, [order-changing operations met]) of a value built from a dict view through containers"""
+    ops = []
+    while depth < 10:
+        depth += 1
+        if isinstance(e, ast.Name):
+            vs = [v for v in d.defs.get(e.id, []) if isinstance(v, ast.AST)]
+            # `name[:] = X` fills a pre-allocated array with X, in order
+            fills = [s_.value for s_ in body_walk(fn) if isinstance(s_, ast.Assign) and isinstance(s_.targets[0], ast.Subscript) and norm(s_.targets[0].value) == e.id and norm(s_.targets[0].slice) == ":"]
+            if len(fills) == 1:
+                e = fills[0]
+                continue
+            if len(vs) == 1:
+                e = vs[0]
+                continue
+            return norm(e), ops
+        if isinstance(e, ast.Call):
+            last = (dotted(e.func) or "").split(".")[-1] if dotted(e.func) else (e.func.attr if isinstance(e.func, ast.Attribute) else "")
+            if last in ("keys", "values") and isinstance(e.func, ast.Attribute) and not e.args:
+                return norm(e), ops
+            if last in _ORDER_CHANGING:
+                ops.append(last)
+            if e.args:
+                e = e.args[0]
+                continue
+            return norm(e), ops
+        if isinstance(e, ast.Subscript):
+            if isinstance(e.slice, ast.Slice) and e.slice.step is not None:
+                ops.append(f"[{norm(e.slice)}]")
+            e = e.value
+            continue
+        return norm(e), ops
+    return norm(e), ops
+
+
+def check_sampling_pairs_keys_with_probabilities(ctx):
+    """np.random.choice(population, n, p=weights): entry i of the population is drawn with weight i. Both come from one dictionary,
+    as its keys() and its values() -- which correspond position by position only while neither side is re-ordered."""
+    f = ctx.repo.func("utils:sample_from_probability_distribution")
+    ctx.analysed(f)
+    dist = positional_params(f.node)[0]
+    d = Defs(f.node)
+    calls = [c for c in body_walk(f.node) if isinstance(c, ast.Call) and (dotted(c.func) or "").split(".")[-1] == "choice"]
+    if len(calls) != 1 or not calls[0].args:
+        ctx.undecided(R6, f.key + ":pairing", "expected one random choice(...) call", f)
+        return
+    c = calls[0]
+    w = next((k.value for k in c.keywords if k.arg == "p"), c.args[3] if len(c.args) > 3 else None)
+    if w is None:
+        ctx.violation(R6, f.key + ":pairing", "the draw does not pass the probabilities (`p=`): outcomes are drawn uniformly", f"{f.module.relpath}:{c.lineno}")
+        return
+    ksrc, kops = _order_trace(f.node, d, c.args[0])
+    vsrc, vops = _order_trace(f.node, d, w)
+    where = f"{f.module.relpath}:{c.lineno}"
+    if (ksrc, vsrc) != (f"{dist}.keys()", f"{dist}.values()") and not (ksrc == dist and vsrc == f"{dist}.values()"):
+        ctx.undecided(R6, f.key + ":pairing", f"population comes from {ksrc} and weights from {vsrc}: not the keys() and values() of the distribution", where)
+        return
+    ctx.check(not kops and not vops, R6, f.key + ":pairing", "population and weights are the dictionary's keys() and values(), neither re-ordered", f"the population is the distribution's keys through {kops or 'no re-ordering'} and the weights its values through {vops or 'no re-ordering'}: position i of one no longer belongs to position i of the other, so outcomes are drawn with each other's probabilities whenever the dictionary is not already in that order", where)
+
+
 def check_purity(ctx):
     from .c20 import effects_for
 
@@ -490,6 +553,7 @@ def run(ctx):
     check_recombination(ctx)
     check_scale(ctx)
     check_representing(ctx)
+    check_sampling_pairs_keys_with_probabilities(ctx)
     check_purity(ctx)
     ctx.floor("C13-D1", 4)
     ctx.floor("C13-D2", 2)
